@@ -2,3 +2,6 @@ package block
 
 var zzC02Len = 3
 var zzC02SymbolicDA = true
+
+// clean_restart: are the parts delivered before the stop offered again after it (quick: no; thorough: either)
+var zzC02Redeliver = true
